@@ -1,7 +1,7 @@
 (* C01 — decoding of tree snapshots / values / ops, evaluation with the model, canonical printing. *)
 From Coq Require Import ZArith List String Bool.
 Import ListNotations.
-From TD Require Import Lib.Sexp Model.C01_Tree Model.C01_Ops Model.C01_Scope Model.C01_Index Model.C01_All.
+From TD Require Import Lib.Sexp Model.C01_Tree Model.C01_Ops Model.C01_Scope Model.C01_Index Model.C01_All Model.C01_Lazy.
 From TD Require Model.C03_Index.
 Open Scope string_scope.
 Open Scope list_scope.
@@ -145,6 +145,26 @@ Fixpoint enc_tree (t : tree) : sexp :=
 Definition enc_outcome (o : outcome) : sexp :=
   SA (match o with Done => "ok" | Raised => "raise" | Unmodelled => "unmodelled" end).
 
+(* ---- lazy stacks at the root ---- *)
+Definition dec_lstack (s : sexp) : option lstack :=
+  match s with
+  | SL [SA "lstack"; d; ms] => match dec_nat d, dec_list dec_tree ms with Some d, Some ms => Some (LStack d ms) | _, _ => None end
+  | _ => None
+  end.
+Definition enc_lstack (L : lstack) : sexp :=
+  match L with LStack d ms => SL [SA "lstack"; enc_nat d; enc_list enc_tree ms; enc_list enc_nat (lbs L); enc_odev (ldev L)] end.
+Definition dec_lop (s : sexp) : option lop :=
+  match s with
+  | SL [SA "set"; k; v; ip] =>
+      match dec_key k, dec_value v, dec_bool ip with Some k, Some v, Some ip => Some (LSet k v ip) | _, _, _ => None end
+  | SL [SA "set_"; k; v] => match dec_key k, dec_value v with Some k, Some v => Some (LSet_ k v) | _, _ => None end
+  | SL [SA "del"; k] => option_map LDel (dec_key k)
+  | SL [SA "insert"; i; v] => match dec_nat i, dec_value v with Some i, Some v => Some (LInsert i v) | _, _ => None end
+  | SL [SA "append"; v] => option_map LAppend (dec_value v)
+  | SL [SA "bs"; sz; l] => match dec_bool sz, dec_list dec_nat l with Some sz, Some l => Some (LBatchSize sz l) | _, _ => None end
+  | _ => None
+  end.
+
 Definition dispatch (cmd : string) (args : list sexp) : option sexp :=
   match cmd, args with
   | "step", [t; o] =>
@@ -161,6 +181,13 @@ Definition dispatch (cmd : string) (args : list sexp) : option sexp :=
           let r := xstep t o in
           Some (SL [enc_tree (fst r); enc_outcome (snd r); enc_bool (coherentb t); enc_bool (coherentb (fst r));
                     enc_bool (x_in_scopeb t o); enc_bool (x_cleanb t o)])
+      | _, _ => None
+      end
+  | "lstep", [L; o] =>
+      match dec_lstack L, dec_lop o with
+      | Some L, Some o =>
+          let r := lstep L o in
+          Some (SL [enc_lstack (fst r); enc_outcome (snd r); enc_bool (lcohb L); enc_bool (lcohb (fst r)); enc_bool (lop_value_ok o)])
       | _, _ => None
       end
   | "coh", [t] => match dec_tree t with Some t => Some (enc_bool (coherentb t)) | None => None end
